@@ -41,6 +41,7 @@ type Opts struct {
 	ProxyMaxBlob int64
 	Dir          string // reuse an existing directory (restart); default: fresh temp dir
 	NoAsset      bool
+	GRPCOpts     []grpc.ServerOption // interceptors of a recording / faulty peer
 }
 
 // Fixture is a running set of front ends over one disk cache.
@@ -112,7 +113,7 @@ func New(o Opts) (*Fixture, error) {
 	f.Cache = c
 
 	f.lis = bufconn.Listen(4 << 20)
-	f.grpcSrv = grpc.NewServer(grpc.MaxRecvMsgSize(64<<20), grpc.MaxSendMsgSize(64<<20))
+	f.grpcSrv = grpc.NewServer(append([]grpc.ServerOption{grpc.MaxRecvMsgSize(64 << 20), grpc.MaxSendMsgSize(64 << 20)}, o.GRPCOpts...)...)
 	go func() {
 		_ = server.ServeGRPC(f.lis, f.grpcSrv, !o.NoDepsCheck, o.Mangle, !o.NoAsset, maxBlob, c, silent(), silent())
 	}()
